@@ -497,6 +497,12 @@ def flow_rules(c, res, an):
     if dflt is None:
         raise CheckError('anchor: RegionHandler::get_default_datarate is not one default method returning a constant (overrides: %s)' % overrides)
     win = rules.variants_of(prog, 'mac::Window')
+    # the classified unwrap of Mac::build_rf_config leans on the RX2 default being defined: the lookup it unwraps must be the one for Window::_2
+    from . import c10 as _c10
+    fw = _c10.fallback_windows(c)
+    res.require(fw == ['_2'], 'C04:Mac::build_rf_config:fallback-window', 'the fallback data rate unwrapped in build_rf_config is looked up for %s, not for the constant Window::_2: for an RX1 rate the region does not define '
+                '(IN865 DR5 + RX1DROffset 7 -> DR7, AS923 DR5 + offset 7) the lookup repeats the undefined rate and the unwrap panics on the next uplink' % fw, D + 'mac::Mac::build_rf_config',
+                'PROVENANCE(fallback lookup = regional RX2 default)', instance='build_rf_config: unwrap(get_datarate(get_rx_datarate(.., Window::_2)))')
     for r in regs:
         sr = r.split('::')[-1].split('<')[0]
         dr = tables.datarates(prog, r)
